@@ -12,6 +12,7 @@ import (
 	"fmt"
 	"math/rand"
 	"sort"
+	"strings"
 
 	"github.com/tikv/pd/server/core"
 	"github.com/tikv/pd/server/schedule/placement"
@@ -219,7 +220,7 @@ func genStoreUpdate(rng *rand.Rand, cur *world) *updateDesc {
 	what := ""
 	setLabel := func(k, v string) {
 		for i := range s.Labels {
-			if s.Labels[i].K == k {
+			if strings.EqualFold(s.Labels[i].K, k) { // like the server's MergeLabels
 				s.Labels[i].V = v
 				return
 			}
@@ -228,7 +229,7 @@ func genStoreUpdate(rng *rand.Rand, cur *world) *updateDesc {
 	}
 	dropLabel := func(k string) bool {
 		for i := range s.Labels {
-			if s.Labels[i].K == k {
+			if strings.EqualFold(s.Labels[i].K, k) {
 				s.Labels = append(s.Labels[:i:i], s.Labels[i+1:]...)
 				return true
 			}
